@@ -102,12 +102,16 @@ def build_stream(iface, kind, n, raise_at):
     return m.SendEventResponse(g, 201, {"x-e": "é"}, ping_interval=50)
 
 
-def call(iface, resp, method="GET", headers=(), close_after=None, send_fail_at=None, zerocopy=False):
+def call(iface, resp, method="GET", headers=(), close_after=None, send_fail_at=None, zerocopy=False, no_receive=False):
     req = SV.AReq(method=method, headers=list(headers))
     random.seed(3)
     if iface == "wsgi":
         return SV.run_wsgi(resp, SV.to_environ(req), close_after=close_after, monitor=False)
     ext = {"http.response.zerocopysend": {}} if zerocopy else None
+    if no_receive:
+        # the receive channel raises once the request has been handed out (what baize.asgi.empty_receive does), the server really
+        # suspends in send(): the client is there, send() works, the producer is healthy - the response must be complete
+        return SV.run_asgi(resp, SV.to_scope(req, extensions=ext), SV.to_messages(req), monitor=False, receive_raises=True, send_yields=True)
     return SV.run_asgi(resp, SV.to_scope(req, extensions=ext), SV.to_messages(req), monitor=False, send_fail_at=send_fail_at)
 
 
@@ -516,6 +520,10 @@ def run_shard(desc, tier):
             ok = judge(r, iface, name, res, None if raise_at is None else f"producer raises at step {raise_at}", expect_exc=Boom)
             if raise_at is not None and not isinstance(res.exc, Boom):
                 r.violation("producer-exception-swallowed", {"iface": iface, "recipe": name}, f"{iface} {name}: producer's exception did not surface ({res.exc!r})")
+            if iface == "asgi":
+                for method in ("GET", "HEAD"):
+                    res3 = call(iface, build_stream(iface, kind, n, raise_at), method, no_receive=True)
+                    judge(r, iface, name + f" {method}, no receive channel", res3, None if raise_at is None else f"producer raises at step {raise_at}", expect_exc=Boom)
             total = n_sends(res)
             for f in range(0, total + 2):
                 resp2 = build_stream(iface, kind, n, raise_at)
